@@ -165,6 +165,13 @@ structure IterSt (N : Type) where
 section
 variable {N : Type} [DecidableEq N]
 
+/-- `visited.LoadOrStore(key)` for a key that was not there; the ghost part: the sub-problem behind the
+key and whether it is going to be evaluated (the condition filter runs afterwards) -/
+def mark (it : Item N) (V : Vis N) : Vis N :=
+  match it.child with
+  | some n => (it.key, n, decide (it.cond = .tt)) :: V
+  | none => V
+
 /-- `filter.Next`: pull raw tuples until one passes both filters.  Returns the passed sub-problem (if
 any), the remaining raw tuples and the new state. -/
 def pull (active : Bool) : List (Item N) → IterSt N → Option (Option N) × List (Item N) × IterSt N
@@ -178,10 +185,7 @@ def pull (active : Bool) : List (Item N) → IterSt N → Option (Option N) × L
         let bad := !(e.2.2 && it.child = some e.2.1)
         pull active rest (if bad then { st with acc := st.acc ++ [[.ok false true]] } else st)
       | none =>
-        let V' : Vis N := match it.child with
-          | some n => (it.key, n, it.cond = .tt) :: V
-          | none => V
-        let st := { st with vis := some V' }
+        let st := { st with vis := some (mark it V) }
         match it.cond with
         | .tt => (some it.child, rest, { st with onceValid := true })
         | .ff => pull active rest st
